@@ -188,25 +188,27 @@ Proof.
   rewrite recv_fb_open. now destruct (recv W lease s w).
 Qed.
 
-(* WHILE THE HANDSHAKE IS RUNNING an unprotected warning alert (anybody can send one) is inert: it surfaces
-   no error, draws no alert, closes nothing, delivers nothing, and leaves epoch, keys, queue and closed flag
-   alone - at most its own epoch-0 record number is committed *)
+(* WHILE THE HANDSHAKE IS RUNNING an unprotected warning alert (anybody can send one) is inert: nothing at all
+   is output (no error, no alert, no close, no delivery, no replay commit) and the state is untouched *)
 Theorem warning_alert_inert_before_establishment W lease full s w level desc :
   w_epoch w = 0 -> w_clear w = CAlert level desc -> is_warning (CAlert level desc) = true ->
-  let r := recv_conn W lease full false s w in
-  (snd r = [] \/ snd r = [OMark 0 (w_seq w)]) /\
-  r_epoch (fst r) = r_epoch s /\ r_init (fst r) = r_init s /\ r_queue (fst r) = r_queue s /\
-  r_closed (fst r) = r_closed s /\ r_cid (fst r) = r_cid s.
+  recv_conn W lease full false s w = (s, []).
 Proof.
-  intros He Hb Hw. cbv zeta. unfold recv_conn. cbn [andb]. unfold disp_content, recv_fb, gated, dispatch. rewrite He, Hb.
+  intros He Hb Hw. unfold recv_conn. cbn [andb]. unfold disp_content, recv_fb, gated, dispatch, mark, omark.
+  rewrite He, Hb.
   cbn [N.eqb is_hs andb]. rewrite Hw. cbn [negb andb].
   cbn [is_warning] in Hw. apply negb_true_iff in Hw. rewrite Hw.
   assert (Hd : (desc =? desc_close_notify) = false) by (apply orb_false_iff in Hw; tauto). rewrite Hd.
-  destruct (r_closed s) eqn:Ec; [cbn; rewrite ?Ec; auto 10|].
+  destruct (r_closed s) eqn:Ec; [reflexivity|].
   destruct (r_epoch s <? 0) eqn:E; [lia|].
-  destruct (negb (check maxseq48 (get_win W 0 (r_wins s)) (w_seq w))); [cbn; rewrite ?Ec; auto 10|].
-  rewrite andb_false_r. cbn. rewrite ?Ec. auto 10.
+  destruct (negb (check maxseq48 (get_win W 0 (r_wins s)) (w_seq w))); [reflexivity|].
+  rewrite andb_false_r. reflexivity.
 Qed.
+
+Corollary warning_alert_silent_before_establishment W lease full s w level desc :
+  w_epoch w = 0 -> w_clear w = CAlert level desc -> is_warning (CAlert level desc) = true ->
+  snd (recv_conn W lease full false s w) = [].
+Proof. intros He Hb Hw. now rewrite (warning_alert_inert_before_establishment W lease full s w level desc). Qed.
 
 (* ONCE ESTABLISHED every unprotected alert - fatal, close_notify or warning - is inert: nothing is output
    (no close, no close_notify reply, no Read error), the state is untouched (no replay commit), full buffer or
@@ -220,16 +222,17 @@ Theorem unprotected_ccs_inert_established_conn W lease full s w :
   unprotected_ccs w = true -> recv_conn W lease full true s w = (s, []).
 Proof. intro H. unfold recv_conn. rewrite H. now rewrite orb_true_r. Qed.
 
-(* what X1 still is: WHILE THE HANDSHAKE IS RUNNING an unprotected fatal alert (or close_notify) with a fresh
-   number closes the endpoint - DTLS 1.2 alerts are unauthenticated until the epoch changes *)
+(* what X1 still is: WHILE THE HANDSHAKE IS RUNNING an unprotected fatal alert (or close_notify) with a number
+   the epoch-0 window accepts closes the endpoint - DTLS 1.2 alerts are unauthenticated until the epoch
+   changes.  Its record number is not committed (5206069). *)
 Theorem unprotected_fatal_alert_before_establishment W lease s w desc :
   r_closed s = false -> w_epoch w = 0 -> w_clear w = CAlert alert_fatal desc -> desc <> desc_close_notify ->
   check maxseq48 (get_win W 0 (r_wins s)) (w_seq w) = true ->
-  snd (recv_conn W lease false false s w) = [OMark 0 (w_seq w); OClosed].
+  snd (recv_conn W lease false false s w) = [OClosed].
 Proof.
   intros Hc He Hb Hd Hk. unfold recv_conn. cbn [andb negb]. unfold disp_content. rewrite He, Hb.
   cbn [N.eqb is_warning]. rewrite N.eqb_refl. cbn [orb negb].
-  rewrite recv_fb_open. unfold recv, dispatch. rewrite Hc, He, Hb, Hk. rewrite N.eqb_refl.
+  rewrite recv_fb_open. unfold recv, dispatch, omark. rewrite Hc, He, Hb, Hk. rewrite N.eqb_refl.
   destruct (r_epoch s <? 0) eqn:E; [lia|]. cbn.
   destruct (desc =? desc_close_notify) eqn:E2; [lia|]. reflexivity.
 Qed.
@@ -238,21 +241,18 @@ Qed.
    warning alert was returned straight out of negotiateVersionClient / -Server and ended the handshake) *)
 Theorem warning_alert_inert_during_negotiation W lease full est s w level desc :
   w_epoch w = 0 -> w_clear w = CAlert level desc -> is_warning (CAlert level desc) = true ->
-  let r := recv_conn_neg W lease full true est s w in
-  (snd r = [] \/ snd r = [OMark 0 (w_seq w)]) /\
-  r_epoch (fst r) = r_epoch s /\ r_init (fst r) = r_init s /\ r_queue (fst r) = r_queue s /\
-  r_closed (fst r) = r_closed s /\ r_cid (fst r) = r_cid s.
+  recv_conn_neg W lease full true est s w = (s, []).
 Proof. unfold recv_conn_neg. apply warning_alert_inert_before_establishment. Qed.
 
-(* KNOWN (K-C08-1), as coded: an UNPROTECTED return_routability_check record that decodes is not dropped - it is
+(* KNOWN (F101), as coded: an UNPROTECTED return_routability_check record that decodes is not dropped - it is
    answered with a fatal unexpected_message alert and an error (the handshake in progress ends; on an established
    connection Read fails and the protected alert closes the peer).  The pinned suite demands this behaviour. *)
 Theorem unprotected_rrc_refuted W lease full est s w :
   r_closed s = false -> w_epoch w = 0 -> w_clear w = CRrc ->
   check maxseq48 (get_win W 0 (r_wins s)) (w_seq w) = true ->
-  snd (recv_top W lease full est s w) = [OAlert alert_fatal desc_unexpected_message; OErr].
+  snd (recv_conn W lease full est s w) = [OAlert alert_fatal desc_unexpected_message; OErr].
 Proof.
-  intros Hc He Hb Hk. unfold recv_top, recv_conn, unprotected_alert, unprotected_ccs. rewrite He, Hb.
+  intros Hc He Hb Hk. unfold recv_conn, unprotected_alert, unprotected_ccs. rewrite He, Hb.
   cbn [N.eqb andb orb]. rewrite andb_false_r. cbn [andb].
   unfold disp_content, recv_fb, gated, dispatch. rewrite Hc, He, Hb, Hk. cbn [N.eqb is_hs is_warning negb orb].
   destruct (r_epoch s <? 0) eqn:E; [lia|]. rewrite !andb_false_r. cbn. reflexivity.
@@ -260,47 +260,62 @@ Qed.
 
 (* ---------- the epoch-0 replay window never moves (5206069) ---------- *)
 
-Theorem epoch0_window_never_moves W lease full est s w :
-  w_epoch w = 0 -> r_wins (fst (recv_top W lease full est s w)) = r_wins s.
+(* handleRecordContent on an unprotected record: no replay window is touched, no OMark is output *)
+Lemma dispatch_epoch0 W lease s w c :
+  w_epoch w = 0 ->
+  r_wins (fst (dispatch W lease s w c)) = r_wins s /\ marks (snd (dispatch W lease s w c)) = [].
 Proof.
-  intro He. unfold recv_top. destruct (recv_conn W lease full est s w) as [s' os]. now rewrite He.
+  intro He. unfold dispatch, mark, omark, enqueue, set_epoch, set_closed. rewrite He. cbn [N.eqb orb].
+  destruct c;
+    repeat match goal with |- context [if ?b then _ else _] => destruct b end;
+    cbn [fst snd r_wins marks app]; split; reflexivity.
 Qed.
+
+Lemma recv_fb_epoch0 W lease full s w :
+  w_epoch w = 0 ->
+  r_wins (fst (recv_fb W lease full s w)) = r_wins s /\ marks (snd (recv_fb W lease full s w)) = [].
+Proof.
+  intro He. pose proof (dispatch_epoch0 W lease s w (w_clear w) He) as Hd.
+  unfold recv_fb, gated. rewrite He. cbn [N.eqb].
+  destruct (r_closed s); [split; reflexivity|].
+  destruct (r_epoch s <? 0) eqn:E; [lia|].
+  destruct (negb (check maxseq48 (get_win W 0 (r_wins s)) (w_seq w))); [split; reflexivity|].
+  destruct (full && is_hs (w_clear w)); [split; reflexivity|exact Hd].
+Qed.
+
+Lemma marks_filter_err os : marks (filter (fun o => negb (is_err o)) os) = marks os.
+Proof.
+  induction os as [|o os IH]; [reflexivity|]. destruct o; cbn [filter is_err negb marks]; now rewrite ?IH.
+Qed.
+
+Lemma recv_conn_epoch0 W lease full est s w :
+  w_epoch w = 0 ->
+  r_wins (fst (recv_conn W lease full est s w)) = r_wins s /\ marks (snd (recv_conn W lease full est s w)) = [].
+Proof.
+  intro He. pose proof (recv_fb_epoch0 W lease full s w He) as Hf. unfold recv_conn.
+  destruct (est && (unprotected_alert w || unprotected_ccs w)); [split; reflexivity|].
+  destruct (recv_fb W lease full s w) as [s' os]. cbn [fst snd] in Hf.
+  destruct (negb est && is_warning (disp_content w)); cbn [fst snd]; [|exact Hf].
+  now rewrite marks_filter_err.
+Qed.
+
+Theorem epoch0_window_never_moves W lease full est s w :
+  w_epoch w = 0 -> r_wins (fst (recv_conn W lease full est s w)) = r_wins s.
+Proof. intro He. now apply recv_conn_epoch0. Qed.
 
 (* whatever record number an unprotected record carries - 2^48-1 included - the verdict of the replay check on
    every later record, of every epoch, is what it was (before, ONE epoch-0 record numbered 2^48-1 made every
    later genuine epoch-0 record a "replay": the handshake in progress never completed) *)
 Theorem unprotected_number_harmless W lease full est s g e q :
   w_epoch g = 0 ->
-  check maxseq48 (get_win W e (r_wins (fst (recv_top W lease full est s g)))) q =
+  check maxseq48 (get_win W e (r_wins (fst (recv_conn W lease full est s g)))) q =
   check maxseq48 (get_win W e (r_wins s)) q.
 Proof. intro He. now rewrite epoch0_window_never_moves. Qed.
 
 (* no OMark output is ever produced for an unprotected record *)
 Theorem epoch0_never_marks W lease full est s w :
-  w_epoch w = 0 -> marks (snd (recv_top W lease full est s w)) = [].
-Proof.
-  intro He. unfold recv_top. destruct (recv_conn W lease full est s w) as [s' os]. rewrite He. cbn [N.eqb snd].
-  induction os as [|o os IH]; [reflexivity|]. cbn [filter]. destruct o; cbn [is_mark negb marks]; auto.
-Qed.
-
-(* protected records are untouched by this layer *)
-Lemma recv_top_protected W lease full est s w :
-  w_epoch w <> 0 -> recv_top W lease full est s w = recv_conn W lease full est s w.
-Proof.
-  intro He. unfold recv_top. destruct (recv_conn W lease full est s w) as [s' os].
-  destruct (w_epoch w =? 0) eqn:E; [lia|reflexivity].
-Qed.
-
-(* the warning alert while the handshake runs, at the top layer: nothing at all is output *)
-Theorem warning_alert_silent_before_establishment W lease full s w level desc :
-  w_epoch w = 0 -> w_clear w = CAlert level desc -> is_warning (CAlert level desc) = true ->
-  snd (recv_top W lease full false s w) = [].
-Proof.
-  intros He Hb Hw.
-  destruct (warning_alert_inert_before_establishment W lease full s w level desc He Hb Hw) as [Ho _].
-  unfold recv_top. destruct (recv_conn W lease full false s w) as [s' os]. cbn [snd] in Ho. rewrite He. cbn [N.eqb snd].
-  destruct Ho as [-> | ->]; reflexivity.
-Qed.
+  w_epoch w = 0 -> marks (snd (recv_conn W lease full est s w)) = [].
+Proof. intro He. now apply recv_conn_epoch0. Qed.
 
 (* ---------- forged records ---------- *)
 
